@@ -305,3 +305,23 @@ Proof.
     replace (2 ^ 73) with (2 ^ 69 * 2 ^ 4) by (rewrite <- pow_add; reflexivity).
     rewrite <- Rmult_assoc, (Rmult_assoc _ (/ 2 ^ 69)), Rinv_l by (apply pow_nonzero; lra). simpl. lra.
 Qed.
+
+(* ------------------------------------------------------------------------------------------------
+   Semantic tie of numeric._second_order_integral (Proofs/KernelTieC10.v; docs/notes/kernel-tie.md): the term translated on
+   every run from the CURRENT Python body by tools/kernel_extract.py (Extracted/Kernels.v: per-entry symbolic execution of
+   the buffer code with out= / where= masks, logical_and, boolean-mask assignments, the three cases) IS soi_entry, for any
+   previous contents of the work buffers (junk) and any threshold thr >= 0 used for both case tests.
+   ------------------------------------------------------------------------------------------------ *)
+From FF Require Import Extracted.Kernels Proofs.KernelTieC10.
+
+Theorem C10_kernels_translated : kernel_untranslated_C10 = nil.
+Proof. exact kernels_translated_C10. Qed.
+
+Theorem C10_kernel_soi_is_source : forall thr w evi evj evm evn dt junk o i j m n, 0 <= thr ->
+  soi_entry_src RO thr thr w evi evj evm evn dt junk o i j m n = soi_entry RO thr w evi evj evm evn dt.
+Proof. exact soi_entry_is_source. Qed.
+Print Assumptions C10_kernel_soi_is_source.
+
+(* both literals of the source are the constant the model is evaluated with *)
+Theorem C10_kernel_soi_literals : soi_entry_src_lit_thr_EdE = soi_entry_src_lit_thr_dEE.
+Proof. reflexivity. Qed.
